@@ -289,23 +289,26 @@ Section Restore.
      raised (anywhere below it), or abandoned after k answers and closed/dropped - the heap is h *)
   Corollary query_restores n d k h c e hf itf ys r :
     nexts n d k h (IFresh c e) = Some (hf, itf, ys, r) ->
-    iclose hf itf = h /\ (r <> RYield -> d <> 0 -> hf = h)
+    iclose hf itf = h /\ (r <> RYield -> hf = h)
     /\ Forall (fun y => exists nw, y = nw ++ h) ys.
   Proof.
     intros H. destruct (frame_restores _ _ _ (Inv_fresh h c e) H) as [I' [C [S' [F _]]]].
-    repeat split; auto. intros NY ND.
-    eapply nexts_frame; [exact ND|apply Inv_fresh|exact Logic.I|exact H|exact NY].
+    repeat split; auto. intros NY. destruct d as [|d'].
+    - (* recursion limit reached before the frame is entered: nothing happened *)
+      destruct k as [|k]; cbn [GenMachine.nexts] in H; [inversion H; congruence|].
+      destruct n as [|n']; [discriminate|]. rewrite inext_S in H. inversion H; reflexivity.
+    - eapply nexts_frame; [apply Nat.neq_succ_0|apply Inv_fresh|exact Logic.I|exact H|exact NY].
   Qed.
 
   (* re-running the same query on the heap it left gives the same answers again
      (the machine is a function of heap and generator object, and the heap is restored) *)
   Corollary rerun_same n d k h c e hf itf ys r :
-    d <> 0 -> r <> RYield ->
+    r <> RYield ->
     nexts n d k h (IFresh c e) = Some (hf, itf, ys, r) ->
     nexts n d k hf (IFresh c e) = Some (hf, itf, ys, r).
   Proof.
-    intros ND NY H. destruct (query_restores _ _ _ _ _ _ H) as [_ [A _]].
-    pose proof (A NY ND) as Eh. subst hf. exact H.
+    intros NY H. destruct (query_restores _ _ _ _ _ _ H) as [_ [A _]].
+    pose proof (A NY) as Eh. subst hf. exact H.
   Qed.
 End Restore.
 
@@ -352,12 +355,12 @@ Section UnifyMachine.
 
   Theorem query_restores_unify n d k h c e hf itf ys r :
     unexts n d k h (IFresh c e) = Some (hf, itf, ys, r) ->
-    uiclose hf itf = h /\ (r <> RYield -> d <> 0 -> hf = h)
+    uiclose hf itf = h /\ (r <> RYield -> hf = h)
     /\ Forall (fun y => exists nw, y = nw ++ h) ys.
   Proof. apply (@query_restores gen _ E P umkleaf ulnext ulclose prog gho inv U_new U_next U_close U_ext). Qed.
 
   Theorem rerun_same_unify n d k h c e hf itf ys r :
-    d <> 0 -> r <> RYield ->
+    r <> RYield ->
     unexts n d k h (IFresh c e) = Some (hf, itf, ys, r) ->
     unexts n d k hf (IFresh c e) = Some (hf, itf, ys, r).
   Proof. apply (@rerun_same gen _ E P umkleaf ulnext ulclose prog gho inv U_new U_next U_close U_ext). Qed.
